@@ -123,6 +123,52 @@ class WorkerModel:
                 return EnumV(1)
             return EnumV(0, [Cell(EnumV(0 if k == "finished" else 1, [Cell(UNIT if k == "finished" else ("join-error",))]))])
 
+        # ---- iterator plumbing a batching variant of the loop would use (std::iter::once / chain / map / collect over the channel's
+        # try_iter): evaluated eagerly at collect(); try_iter hands out 0..2 more queued tasks by choice
+        def s_once(I, a, pth, c):
+            return ("it-once", a[0])
+
+        def s_try_iter(I, a, pth, c):
+            return ("it-try",)
+
+        def s_chain(I, a, pth, c):
+            return ("it-chain", a[0], a[1])
+
+        def s_map(I, a, pth, c):
+            return ("it-map", a[0], a[1])
+
+        def items_of(it, pth):
+            if it[0] == "it-once":
+                return [it[1]]
+            if it[0] == "it-try":
+                room = max(0, me.max_tasks - W.received)
+                n = pth.choose(min(2, room) + 1, "tasks already queued (try_iter)")
+                out = []
+                for _ in range(n):
+                    W.received += 1
+                    W.events.append(("recv", W.received))
+                    out.append(Struct({0: Cell(("task", W.received)), 1: Cell(("meta", W.received))}))
+                return out
+            if it[0] == "it-chain":
+                return items_of(it[1], pth) + items_of(it[2], pth)
+            raise Unsupported("iterator %r" % (it[0],))
+
+        def s_collect(I, a, pth, c):
+            it = a[0]
+            if it[0] != "it-map":
+                raise Unsupported("collect of %r" % (it[0],))
+            out = []
+            for x in items_of(it[1], pth):
+                out.append((yield from I.call_closure(it[2], [x], pth)))
+            return ("vec", out)
+
+        def s_vec_into_iter(I, a, pth, c):
+            return ("vec-iter", list(a[0][1]))
+
+        def s_vec_next(I, a, pth, c):
+            it = deref(a[0])
+            return EnumV(1, [Cell(it[1].pop(0))]) if it[1] else EnumV(0)
+
         # ---- the task wrapper
         def s_spawn_at(I, a, pth, c):
             W.spawned_future = a[1]
@@ -158,6 +204,11 @@ class WorkerModel:
             (r"^<dyn Spawnable \+ (?:std::marker::)?Send as Spawnable>::spawn$", s_dyn_spawn),
             (r"^compio_runtime::JoinHandle::<\(\)>::detach$", s_detach),
             (r"^<compio_runtime::JoinHandle<\(\)> as (?:std::future::)?Future>::poll$", s_join_poll),
+            (r"^(?:std::iter::)?once::<Spawning>$", s_once), (r"^flume::Receiver::<Spawning>::try_iter$", s_try_iter),
+            (r"^<.* as Iterator>::chain::<", s_chain), (r"^<.* as Iterator>::map::<", s_map),
+            (r"^<Map<.*> as Iterator>::collect::<Vec<", s_collect),
+            (r"^<Vec<compio_runtime::JoinHandle<\(\)>> as IntoIterator>::into_iter$", s_vec_into_iter),
+            (r"^<std::vec::IntoIter<compio_runtime::JoinHandle<\(\)>> as Iterator>::next$", s_vec_next),
             (r"^Runtime::spawn_at::<", s_spawn_at),
             (r"^<F as FnOnce<\(\)>>::call_once$", s_call_user),
             (r"^<Fut as (?:std::future::)?Future>::poll$", s_user_poll),
